@@ -13,7 +13,7 @@
    layers.  The implementation-level oracle runs the complete round trip on every accepted string of every archetype
    and on the 119 documented strings; the erasure itself is evaluated with the extracted [erase_ext]. *)
 From Coq Require Import List ZArith QArith Ascii String Bool.
-From GBS Require Import Model.PyStr Model.Num Model.Bond Model.Token Model.Render Src.SrcBond Proofs.BondP Proofs.TokenP Proofs.RenderP Proofs.StrP Proofs.RoundTrip.
+From GBS Require Import Model.PyStr Model.Num Model.Bond Model.Token Model.Render Src.SrcBond Proofs.BondP Proofs.TokenP Proofs.RenderP Proofs.StrP Proofs.RoundTrip Src.SrcDescr Proofs.DescrSrcP.
 From GBS Require Props.C03.
 Import ListNotations.
 
@@ -101,6 +101,18 @@ Print Assumptions C01_descriptor_canonical_fixed_point.
 Theorem C01_id_read_back : forall z, py_int (z_to_str z) = Some z.
 Proof. exact py_int_z_to_str. Qed.
 Print Assumptions C01_id_read_back.
+
+(* tie T: the descriptor parser rebuilt, statement by statement, from the string expressions and decisions REGENERATED from
+   BondDescriptor.__init__ (Src/SrcDescr.v, Src/SrcBond.v; statement skeleton checked) is parse_descr; so the round trip holds of it *)
+Theorem C01_descriptor_parser_is_source : forall raw n pre atom, parse_descr_src raw n pre atom = parse_descr raw n pre atom.
+Proof. exact parse_descr_is_source. Qed.
+Print Assumptions C01_descriptor_parser_is_source.
+
+Theorem C01_source_descriptor_round_trip : forall (fprint : num -> str) raw n pre atom d,
+  parse_descr_src raw n pre atom = OK d -> Forall (reads_back fprint) (descr_weights d) ->
+  parse_descr_src (print_descr fprint true d) n pre atom = OK d.
+Proof. intros fprint raw n pre atom d. rewrite !parse_descr_is_source. apply descr_round_trip. Qed.
+Print Assumptions C01_source_descriptor_round_trip.
 
 (* the hypotheses are met: a descriptor outside the finite universe (id 1234, a list of three numbers) *)
 Example C01_round_trip_example :
